@@ -308,3 +308,40 @@ package ct
 //@ layout TimestampedEntry C04: Timestamp uint64; EntryType enum(2); X509Entry select(EntryType=0) ASN1Cert; PrecertEntry select(EntryType=1) PreCert; JSONEntry select(EntryType=32768) JSONDataEntry; Extensions opaque<0..65535>
 //@ layout MerkleTreeLeaf C04: Version enum(1); LeafType enum(1); TimestampedEntry select(LeafType=0) TimestampedEntry
 //@ layout TreeHeadSignature C04 C05: Version enum(1); SignatureType enum(1); Timestamp uint64; TreeSize uint64; SHA256RootHash opaque[32]
+
+// The JSON form of a DigitallySigned (the "signature" / "tree_head_signature" fields): base64 of
+// the complete TLS encoding and nothing else — trailing bytes are refused, what decodes completely
+// is accepted and stored, and the text written is the base64 of the TLS encoding of the value.
+//@ func (*DigitallySigned).FromBase64String
+//@ props C04 C12
+//@ site DecodeString#1 as dec
+//@ site tls.Unmarshal#1 as um
+//@ requires d != nil
+//@ modifies pointee(d)
+//@ ensures [text-must-be-base64] dec.res1 != nil ==> result != nil && !um.called
+//@ ensures [must-decode-completely] um.called && (um.res1 != nil || len(um.res0) > 0) ==> result != nil
+//@ ensures [what-decodes-completely-is-accepted] dec.res1 == nil ==> um.called && (um.res1 == nil && len(um.res0) == 0 ==> result == nil)
+//@ ensures [an-error-leaves-the-value-untouched] result != nil ==> d.Signature == old(d.Signature) && d.Algorithm.Hash == old(d.Algorithm.Hash) && d.Algorithm.Signature == old(d.Algorithm.Signature)
+//@ ensures [success-stores-the-decoded-value] result == nil ==> d.Signature == after(um, ds.Signature) && d.Algorithm.Hash == after(um, ds.Algorithm.Hash) && d.Algorithm.Signature == after(um, ds.Algorithm.Signature)
+//@ at dec assert [decodes-the-given-text] dec.s == b64
+//@ at um assert [decodes-all-the-decoded-bytes] um.b == dec.res0
+
+//@ func (DigitallySigned).Base64String
+//@ props C04
+//@ pure
+//@ site tls.Marshal#1 as m
+//@ site EncodeToString#1 as enc
+//@ ensures [encoding-failure-gives-no-text] m.res1 != nil ==> result1 == m.res1 && result0 == "" && !enc.called
+//@ ensures [text-is-the-base64-of-the-tls-encoding] m.res1 == nil ==> enc.called && result0 == enc.res && result1 == nil
+//@ at m assert [encodes-this-value] typeof(m.val) == DigitallySigned && as(m.val, DigitallySigned) == d
+//@ at enc assert [of-all-the-encoded-bytes] enc.src == m.res0
+
+//@ func (*DigitallySigned).UnmarshalJSON
+//@ props C04 C12
+//@ site json.Unmarshal#1 as ju
+//@ site FromBase64String#1 as fb
+//@ requires d != nil
+//@ modifies pointee(d)
+//@ ensures [must-be-a-json-string] ju.res != nil ==> result != nil && !fb.called
+//@ ensures [otherwise-the-base64-decoders-verdict] ju.res == nil ==> fb.called && result == fb.res
+//@ at fb assert [decodes-the-json-string-into-this-value] fb.d == d && fb.b64 == after(ju, content)
